@@ -37,7 +37,9 @@ Record platform := mkPlatform {
   p_dev : list (nat * nat * nat);    (* vendor device: (mode, line, new mode); any other line leaves the mode *)
   p_login : list nat;                (* modes the device can be in at login *)
   p_cands : list nat;                (* levels register_configuration_session can add *)
-  p_regs : list (list nat)           (* the key orders `privilege_levels` can take *)
+  p_regs : list (list nat);          (* the key orders `privilege_levels` can take *)
+  p_reset_first : bool               (* ast fact: in acquire_priv's loop the belief is reset to DUMMY BEFORE the
+                                        _escalate / _deescalate call (true for the code as it is); false = after it *)
 }.
 
 Definition dummy_level := mkLevel None 0 0 0 false.
@@ -63,7 +65,7 @@ Definition neutral (P : platform) (l : nat) : bool :=
   forallb (fun t => match t with (m0, l0, m1) => negb (l0 =? l) || (m0 =? m1) end) (p_dev P).
 
 (* ---- outcomes, log ---- *)
-Inductive result := Ok | PrivErr | ValueErr | IndexErr | OutOfFuel.
+Inductive result := Ok | PrivErr | ValueErr | IndexErr | OutOfFuel | Interrupted.
 Inductive kind := KNav | KAbort | KOpen | KUser.
 Definition entry := (nat * nat * kind)%type.   (* (device mode at execution, line, who sent it) *)
 
@@ -280,3 +282,156 @@ Fixpoint run_hist (P : platform) (s : state) (h : list op) : list (state * op * 
   end.
 
 Definition init (P : platform) (m0 : nat) : state := mkSt None false (seq 0 (p_base P)) m0.
+
+(* ================================================================================================
+   Interrupted operations.  The caller may catch an exception raised in the middle of an operation
+   (a transport error, a timeout that leaves the connection usable, asyncio cancellation) and go on
+   using the connection.  An operation is a sequence of channel calls — prompt queries (get_prompt)
+   and line sends (send_input) — and `_current_priv_level` is assigned only between channel calls,
+   so an interrupted outcome is: which call was cut, and whether the device had executed its line.
+   The driver's state is whatever it had assigned up to that call; the device has executed exactly
+   the lines written before the cut (plus the cut one if [x]).
+   ================================================================================================ *)
+Inductive ipoint :=
+| INav (bud : nat) (x : bool)     (* cut while acquiring the level: [bud] channel calls (queries and line sends) completed *)
+| ILine (n : nat) (x : bool).     (* level acquired, [n] content lines completed, the next one cut *)
+
+(* acquire_priv's loop with a budget of channel calls.  The belief while the escalate / deescalate line is
+   in flight is DUMMY if the reset precedes the step (p_reset_first), the old belief otherwise. *)
+Fixpoint acquire_loop_k (P : platform) (reg : list nat) (fuel count : nat) (belief : option nat) (m dest : nat)
+         (seg : list entry) (bud : nat) (x : bool) : option nat * nat * list entry * result :=
+  match fuel with
+  | O => (belief, m, seg, OutOfFuel)
+  | S f =>
+      match bud with
+      | O => (belief, m, seg, Interrupted)                 (* get_prompt cut: nothing assigned, nothing executed *)
+      | S bud1 =>
+          let step (c : nat) :=
+              let bfl := if p_reset_first P then None else belief in
+              match bud1 with
+              | O => if x then (bfl, dstep P m c, seg ++ [(m, c, KNav)], Interrupted) else (bfl, m, seg, Interrupted)
+              | S bud2 =>
+                  if length reg * 2 <? S count then (None, dstep P m c, seg ++ [(m, c, KNav)], PrivErr)
+                  else acquire_loop_k P reg f (S count) None (dstep P m c) dest (seg ++ [(m, c, KNav)]) bud2 x
+              end in
+          match process_acquire P reg belief dest (matches P reg m) with
+          | ANoMatch => (belief, m, seg, PrivErr)
+          | ANoPath => (None, m, seg, IndexErr)
+          | ANone => (Some dest, m, seg, Ok)
+          | ADeesc cur => step (l_deesc (lvl P cur))
+          | AEsc nxt => step (l_esc (lvl P nxt))
+          end
+      end
+  end.
+
+Definition acquire_k (P : platform) (reg : list nat) (belief : option nat) (m dest bud : nat) (x : bool)
+  : option nat * nat * list entry * result :=
+  if mem dest reg then acquire_loop_k P reg (length reg * 2 + 2) 0 belief m dest [] bud x
+  else (belief, m, [], PrivErr).
+
+Definition ensure_k (P : platform) (reg : list nat) (belief : option nat) (m dest bud : nat) (x : bool)
+  : option nat * nat * list entry * result :=
+  if opt_eqb belief (Some dest) then (belief, m, [], Ok) else acquire_k P reg belief m dest bud x.
+
+(* the send loop with [n] lines completed and the next one cut *)
+Fixpoint send_lines_k (P : platform) (k : kind) (stop : bool) (m : nat) (ls : list uline) (n : nat) (x : bool)
+  : nat * list entry * result :=
+  match ls with
+  | [] => (m, [], Ok)
+  | (l, f) :: r =>
+      match n with
+      | O => if x then (dstep P m l, [(m, l, k)], Interrupted) else (m, [], Interrupted)
+      | S n1 =>
+          if stop && f then (dstep P m l, [(m, l, k)], Ok)
+          else match send_lines_k P k stop (dstep P m l) r n1 x with
+               | (m', seg, res) => (m', (m, l, k) :: seg, res)
+               end
+      end
+  end.
+
+(* how an operation begins, and the lines it then sends *)
+Inductive nav_kind :=
+| NavTo (force : bool) (d : nat)   (* acquire_priv(d) (force) / acquire d unless believed there *)
+| NoNav                            (* generic-driver mode: the lines are sent wherever the device is *)
+| NoIO.                            (* rejected before any I/O, or a local operation *)
+
+Definition op_nav (P : platform) (s : state) (o : op) : nav_kind :=
+  match o with
+  | OOpen => NavTo true (p_default P)
+  | OSendCommands _ _ => if generic s then NoNav else NavTo false (p_default P)
+  | OSendConfigs _ _ priv =>
+      if generic s then NoIO
+      else match priv with
+           | Some p => if mem p (reg s) then NavTo false p else NoIO
+           | None => NavTo false (p_cfg P)
+           end
+  | OAcquire d => NavTo true d
+  | OInteractive _ priv =>
+      match priv with
+      | None => if generic s then NoNav else NavTo false (p_default P)
+      | Some p => if mem p (reg s) then NavTo false p else NoIO
+      end
+  | ORegister _ | OSetGeneric _ => NoIO
+  end.
+
+Definition op_lines (P : platform) (o : op) : kind * bool * list uline :=
+  match o with
+  | OOpen => (KOpen, false, map (fun l => (l, false)) (p_open P))
+  | OSendCommands ls stop => (KUser, stop, ls)
+  | OSendConfigs ls stop _ => (KUser, stop, ls)
+  | OInteractive ls _ => (KUser, false, map (fun l => (l, false)) ls)
+  | OAcquire _ | ORegister _ | OSetGeneric _ => (KUser, false, [])
+  end.
+
+(* [Some (state, log)]: the operation is cut at [pt]; [None]: the operation has no such point (it ends before).
+   The platform _abort_config step (after a failed line with stop_on_failed) is not given interruption points. *)
+Definition run_op_int (P : platform) (s : state) (o : op) (pt : ipoint) : option (state * list entry) :=
+  match pt with
+  | INav bud x =>
+      match op_nav P s o with
+      | NavTo force d =>
+          match (if force then acquire_k P (reg s) (belief s) (mode s) d bud x
+                 else ensure_k P (reg s) (belief s) (mode s) d bud x) with
+          | (b1, m1, seg1, Interrupted) => Some (mkSt b1 (generic s) (reg s) m1, seg1)
+          | _ => None
+          end
+      | _ => None
+      end
+  | ILine n x =>
+      let '(k, stop, ls) := op_lines P o in
+      let lines (b1 : option nat) (m1 : nat) (seg1 : list entry) :=
+          match send_lines_k P k stop m1 ls n x with
+          | (m2, seg2, Interrupted) => Some (mkSt b1 (generic s) (reg s) m2, seg1 ++ seg2)
+          | _ => None
+          end in
+      match op_nav P s o with
+      | NavTo force d =>
+          match (if force then acquire P (reg s) (belief s) (mode s) d
+                 else ensure P (reg s) (belief s) (mode s) d) with
+          | (b1, m1, seg1, Ok) => lines b1 m1 seg1
+          | _ => None
+          end
+      | NoNav => lines (belief s) (mode s) []
+      | NoIO => None
+      end
+  end.
+
+(* histories in which the caller catches the interruption and goes on *)
+Definition iop := (op * option ipoint)%type.
+
+Definition run_iop (P : platform) (s : state) (io : iop) : state * list entry * result :=
+  match snd io with
+  | None => run_op P s (fst io)
+  | Some pt => match run_op_int P s (fst io) pt with
+               | Some (s', seg) => (s', seg, Interrupted)
+               | None => run_op P s (fst io)
+               end
+  end.
+
+Fixpoint run_hist_i (P : platform) (s : state) (h : list iop) : list (state * op * list entry * result * state) :=
+  match h with
+  | [] => []
+  | io :: r => match run_iop P s io with
+               | (s', seg, res) => (s, fst io, seg, res, s') :: run_hist_i P s' r
+               end
+  end.
